@@ -2,9 +2,14 @@
    (Gen/Repo_hash.v) are the standards' constants, so the models instantiated with them
    (HashRepo.v - the functions that are extracted and run against the compiled C) satisfy the
    theorems of Sha256Proofs / Sha1Proofs / Md5Proofs / HmacProofs / Pbkdf2Proofs.
-   Every table equality is by vm_compute and is used below: a changed table breaks this file. *)
+   Every table equality is by vm_compute and is used below: a changed table breaks this file.
+   C20: the contexts returned by the six Final functions are all-zero because the zero sets the
+   interpreter (Alg/HashWipe.v) computes from the REGENERATED statement lists and struct layouts
+   contain every field - by vm_compute on those lists, through mask256_zero / mask32_zero: a wipe
+   removed from, mis-sized in, made conditional in or moved inside the C breaks these proofs. *)
+From Coq Require Import String.
 From Coq Require Import Arith NArith ZArith List Lia.
-From LCP Require Import Base.CheckedMem Gen.Repo_hash Alg.Words Alg.WordsProofs Alg.MDSpec Alg.MDModel Alg.Sha256Spec Alg.Sha256Model Alg.Sha256Proofs Alg.MD32Model Alg.MD32Proofs Alg.Sha1Spec Alg.Sha1Model Alg.Sha1Proofs Alg.Md5Spec Alg.Md5Model Alg.Md5Proofs Alg.HmacSpec Alg.HmacModel Alg.HmacProofs Alg.Pbkdf2Spec Alg.Pbkdf2Model Alg.Pbkdf2Proofs Alg.HashSpecs Alg.HashRepo.
+From LCP Require Import Base.CheckedMem Gen.Repo_hash Alg.Words Alg.WordsProofs Alg.MDSpec Alg.MDModel Alg.Sha256Spec Alg.Sha256Model Alg.Sha256Proofs Alg.MD32Model Alg.MD32Proofs Alg.Sha1Spec Alg.Sha1Model Alg.Sha1Proofs Alg.Md5Spec Alg.Md5Model Alg.Md5Proofs Alg.HmacSpec Alg.HmacModel Alg.HmacProofs Alg.Pbkdf2Spec Alg.Pbkdf2Model Alg.Pbkdf2Proofs Alg.HashSpecs Alg.HashWipe Alg.HashWipeProofs Alg.HashRepo.
 Import ListNotations.
 Local Open Scope N_scope.
 
@@ -45,7 +50,7 @@ Proof.
   unfold sha256_final_internal, fin256_internal.
   rewrite repo_sha256_Krnd_eq_spec, repo_sha256_PAD_eq_spec, ?L1, ?L2, ?L3, ?L4. reflexivity.
 Qed.
-Lemma sha256_final_eq : sha256_final = fin256.
+Lemma sha256_final_eq : sha256_final = fin256 (mask256 sha256_final_zero []).
 Proof.
   pose proof repo_sha256_limits as L. destruct L as (L1 & L2 & L3 & L4).
   unfold sha256_final, fin256.
@@ -87,7 +92,14 @@ Proof.
 Qed.
 
 Theorem repo_sha256_final_zeroes_ctx c : c256_is_zero (snd (sha256_final c)) = true.
-Proof. reflexivity. Qed.
+Proof.
+  unfold sha256_final, c256_final. cbn [snd].
+  apply mask256_zero; vm_compute; reflexivity.
+Qed.
+
+Theorem repo_sha256_final_wipes_whole :
+  wipes_whole_ctx hash_structs hash_final_fns "SHA256_Final"%string = true.
+Proof. vm_compute. reflexivity. Qed.
 
 (* ---------------- alg/sha1.c ---------------- *)
 Lemma repo_sha1_iv_eq_spec : sha1_iv = H0_1. Proof. vm_compute. reflexivity. Qed.
@@ -133,13 +145,15 @@ Proof.
   pose proof repo_sha1_limits as L. destruct L as (L1 & L2 & L3 & L4 & L5 & L6 & L7).
   unfold sha1_update, upd1. rewrite sha1_transform_eq, ?L3, ?L4, ?L5, ?L6, ?L7. reflexivity.
 Qed.
-Lemma sha1_final_eq : sha1_final = fin1.
+Lemma sha1_final_with_eq wipe : sha1_final_with wipe = fin1 wipe.
 Proof.
   pose proof repo_sha1_limits as L. destruct L as (L1 & L2 & L3 & L4 & L5 & L6 & L7).
-  unfold sha1_final, fin1.
-  rewrite sha1_transform_eq, repo_sha1_iv_eq_spec, repo_sha1_PAD_eq_spec, ?L1, ?L2, ?L3, ?L4, ?L5, ?L6, ?L7.
+  unfold sha1_final_with, fin1.
+  rewrite sha1_transform_eq, repo_sha1_PAD_eq_spec, ?L1, ?L2, ?L3, ?L4, ?L5, ?L6, ?L7.
   reflexivity.
 Qed.
+Lemma sha1_final_eq : sha1_final = fin1 (mask32 sha1_final_zero []).
+Proof. apply sha1_final_with_eq. Qed.
 Lemma sha1_buf_eq : sha1_buf = buf1.
 Proof.
   pose proof repo_sha1_limits as L. destruct L as (L1 & L2 & L3 & L4 & L5 & L6 & L7).
@@ -174,7 +188,21 @@ Theorem repo_sha1_resume c parts : wf32 5 true c ->
 Proof. intros H. rewrite sha1_final_eq, sha1_update_eq. apply sha1_resume_correct. exact H. Qed.
 
 Theorem repo_sha1_final_zeroes_ctx c : c32_is_zero (snd (sha1_final c)) = true.
-Proof. rewrite sha1_final_eq. apply sha1_final_zeroes_ctx. Qed.
+Proof.
+  unfold sha1_final, sha1_final_with, c32_final. cbn [snd].
+  apply mask32_zero; vm_compute; reflexivity.
+Qed.
+
+Theorem repo_sha1_final_wipes_whole :
+  wipes_whole_ctx hash_structs hash_final_fns "SHA1_Final"%string = true.
+Proof. vm_compute. reflexivity. Qed.
+
+Lemma sha1_nowipe_streaming parts :
+  fst (sha1_final_nowipe (fold_left sha1_update parts sha1_init)) = SHA1_spec (concat parts).
+Proof.
+  unfold sha1_final_nowipe. rewrite sha1_final_with_eq, sha1_update_eq, sha1_init_eq.
+  apply sha1_streaming_correct_all.
+Qed.
 
 (* ---------------- alg/md5.c ---------------- *)
 Lemma repo_md5_iv_eq_spec : md5_iv = IV_md5. Proof. vm_compute. reflexivity. Qed.
@@ -212,13 +240,15 @@ Proof.
   pose proof repo_md5_limits as L. destruct L as (L1 & L2 & L3 & L4 & L5 & L6 & L7).
   unfold md5_update, upd5. rewrite md5_transform_eq, ?L3, ?L4, ?L5, ?L6, ?L7. reflexivity.
 Qed.
-Lemma md5_final_eq : md5_final = fin5.
+Lemma md5_final_with_eq wipe : md5_final_with wipe = fin5 wipe.
 Proof.
   pose proof repo_md5_limits as L. destruct L as (L1 & L2 & L3 & L4 & L5 & L6 & L7).
-  unfold md5_final, fin5.
-  rewrite md5_transform_eq, repo_md5_iv_eq_spec, repo_md5_PAD_eq_spec, ?L1, ?L2, ?L3, ?L4, ?L5, ?L6, ?L7.
+  unfold md5_final_with, fin5.
+  rewrite md5_transform_eq, repo_md5_PAD_eq_spec, ?L1, ?L2, ?L3, ?L4, ?L5, ?L6, ?L7.
   reflexivity.
 Qed.
+Lemma md5_final_eq : md5_final = fin5 (mask32 md5_final_zero []).
+Proof. apply md5_final_with_eq. Qed.
 Lemma md5_buf_eq : md5_buf = buf5.
 Proof.
   pose proof repo_md5_limits as L. destruct L as (L1 & L2 & L3 & L4 & L5 & L6 & L7).
@@ -248,7 +278,21 @@ Theorem repo_md5_resume c parts : wf32 4 false c ->
 Proof. intros H. rewrite md5_final_eq, md5_update_eq. apply md5_resume_correct. exact H. Qed.
 
 Theorem repo_md5_final_zeroes_ctx c : c32_is_zero (snd (md5_final c)) = true.
-Proof. rewrite md5_final_eq. apply md5_final_zeroes_ctx. Qed.
+Proof.
+  unfold md5_final, md5_final_with, c32_final. cbn [snd].
+  apply mask32_zero; vm_compute; reflexivity.
+Qed.
+
+Theorem repo_md5_final_wipes_whole :
+  wipes_whole_ctx hash_structs hash_final_fns "MD5_Final"%string = true.
+Proof. vm_compute. reflexivity. Qed.
+
+Lemma md5_nowipe_streaming parts :
+  fst (md5_final_nowipe (fold_left md5_update parts md5_init)) = MD5_spec (concat parts).
+Proof.
+  unfold md5_final_nowipe. rewrite md5_final_with_eq, md5_update_eq, md5_init_eq.
+  apply md5_streaming_correct.
+Qed.
 
 (* ---------------- HMAC ---------------- *)
 Lemma sha256_internal_stream parts :
@@ -265,7 +309,7 @@ Proof.
   pose proof repo_hmac_sha256_consts as L. destruct L as (L1 & L2 & L3 & L4 & L5).
   unfold hmac256_final_internal, hmac256_update, hmac256_init, HMAC_SHA256_spec.
   rewrite ?L1, ?L2, ?L3, ?L4, ?L5.
-  exact (hmac_internal_correct ctx256 sha256_init sha256_update sha256_final_internal (fun c => c) SHA256_spec 32
+  exact (hmac_internal_correct ctx256 sha256_init sha256_update sha256_final_internal (fun c => c) (fun c => c) SHA256_spec 32
            sha256_internal_stream SHA256_spec_length ltac:(lia) K parts).
 Qed.
 
@@ -276,15 +320,15 @@ Proof.
   pose proof repo_hmac_sha256_consts as L. destruct L as (L1 & L2 & L3 & L4 & L5).
   unfold hmac256_final, hmac256_update, hmac256_init, HMAC_SHA256_spec.
   rewrite ?L1, ?L2, ?L3, ?L4, ?L5.
-  exact (hmac_correct ctx256 sha256_init sha256_update sha256_final_internal (fun _ => c256_zero)
-           SHA256_spec 32 sha256_internal_stream SHA256_spec_length ltac:(lia) K parts).
+  exact (hmac_correct ctx256 sha256_init sha256_update sha256_final_internal
+           (mask256 hmac256_final_zero in_ictx) (mask256 hmac256_final_zero in_octx) SHA256_spec 32 sha256_internal_stream SHA256_spec_length ltac:(lia) K parts).
 Qed.
 
 Theorem repo_hmac_sha256_buf K m : hmac256_buf K m = HMAC_SHA256_spec K m.
 Proof.
   pose proof repo_hmac_sha256_consts as L. destruct L as (L1 & L2 & L3 & L4 & L5).
   unfold hmac256_buf, HMAC_SHA256_spec. rewrite ?L1, ?L2, ?L3, ?L4, ?L5.
-  exact (hmac_buf_correct ctx256 sha256_init sha256_update sha256_final_internal (fun c => c) SHA256_spec 32
+  exact (hmac_buf_correct ctx256 sha256_init sha256_update sha256_final_internal (fun c => c) (fun c => c) SHA256_spec 32
            sha256_internal_stream SHA256_spec_length ltac:(lia) K m).
 Qed.
 
@@ -303,9 +347,14 @@ Qed.
 Theorem repo_hmac_sha256_final_zeroes_ctx c : hctx256_is_zero (snd (hmac256_final c)) = true.
 Proof.
   unfold hmac256_final, hmac_final.
-  destruct (hmac_final_internal ctx256 sha256_update sha256_final_internal hmac_sha256_ihash_len c).
-  reflexivity.
+  destruct (hmac_final_internal ctx256 sha256_update sha256_final_internal hmac_sha256_ihash_len c) as [dg c'].
+  unfold hctx256_is_zero. cbn [snd hm_ictx hm_octx].
+  rewrite !mask256_zero by (vm_compute; reflexivity). reflexivity.
 Qed.
+
+Theorem repo_hmac_sha256_final_wipes_whole :
+  wipes_whole_ctx hash_structs hash_final_fns "HMAC_SHA256_Final"%string = true.
+Proof. vm_compute. reflexivity. Qed.
 
 Theorem repo_hmac_sha1_correct K parts :
   fst (hmacsha1_final (fold_left hmacsha1_update parts (hmacsha1_init K))) =
@@ -314,25 +363,30 @@ Proof.
   pose proof repo_hmac_sha1_consts as L. destruct L as (L1 & L2 & L3 & L4 & L5).
   unfold hmacsha1_final, hmacsha1_update, hmacsha1_init, HMAC_SHA1_spec.
   rewrite ?L1, ?L2, ?L3, ?L4, ?L5.
-  exact (hmac_correct ctx32 sha1_init sha1_update sha1_final (fun c => c)
-           SHA1_spec 20 repo_sha1_streaming_all SHA1_spec_length ltac:(lia) K parts).
+  exact (hmac_correct ctx32 sha1_init sha1_update sha1_final_nowipe
+           (mask32 hmacsha1_final_zero in_ictx) (mask32 hmacsha1_final_zero in_octx)
+           SHA1_spec 20 sha1_nowipe_streaming SHA1_spec_length ltac:(lia) K parts).
 Qed.
 
 Theorem repo_hmac_sha1_buf K m : hmacsha1_buf K m = HMAC_SHA1_spec K m.
 Proof.
   pose proof repo_hmac_sha1_consts as L. destruct L as (L1 & L2 & L3 & L4 & L5).
   unfold hmacsha1_buf, HMAC_SHA1_spec. rewrite ?L1, ?L2, ?L3, ?L4, ?L5.
-  exact (hmac_buf_correct ctx32 sha1_init sha1_update sha1_final (fun c => c) SHA1_spec 20
-           repo_sha1_streaming_all SHA1_spec_length ltac:(lia) K m).
+  exact (hmac_buf_correct ctx32 sha1_init sha1_update sha1_final_nowipe (fun c => c) (fun c => c) SHA1_spec 20
+           sha1_nowipe_streaming SHA1_spec_length ltac:(lia) K m).
 Qed.
 
 Theorem repo_hmac_sha1_final_zeroes_ctx c : hctx32_is_zero (snd (hmacsha1_final c)) = true.
 Proof.
-  pose proof repo_hmac_sha1_consts as L. destruct L as (L1 & L2 & L3 & L4 & L5).
-  unfold hmacsha1_final. rewrite ?L5.
-  rewrite (hmac_final_snd ctx32 sha1_update sha1_final (fun c => c) 20).
-  unfold hctx32_is_zero. cbn [hm_ictx hm_octx]. rewrite !repo_sha1_final_zeroes_ctx. reflexivity.
+  unfold hmacsha1_final, hmac_final.
+  destruct (hmac_final_internal ctx32 sha1_update sha1_final_nowipe hmac_sha1_ihash_len c) as [dg c'].
+  unfold hctx32_is_zero. cbn [snd hm_ictx hm_octx].
+  rewrite !mask32_zero by (vm_compute; reflexivity). reflexivity.
 Qed.
+
+Theorem repo_hmac_sha1_final_wipes_whole :
+  wipes_whole_ctx hash_structs hash_final_fns "HMAC_SHA1_Final"%string = true.
+Proof. vm_compute. reflexivity. Qed.
 
 Theorem repo_hmac_md5_correct K parts :
   fst (hmacmd5_final (fold_left hmacmd5_update parts (hmacmd5_init K))) =
@@ -341,25 +395,30 @@ Proof.
   pose proof repo_hmac_md5_consts as L. destruct L as (L1 & L2 & L3 & L4 & L5).
   unfold hmacmd5_final, hmacmd5_update, hmacmd5_init, HMAC_MD5_spec.
   rewrite ?L1, ?L2, ?L3, ?L4, ?L5.
-  exact (hmac_correct ctx32 md5_init md5_update md5_final (fun c => c)
-           MD5_spec 16 repo_md5_streaming MD5_spec_length ltac:(lia) K parts).
+  exact (hmac_correct ctx32 md5_init md5_update md5_final_nowipe
+           (mask32 hmacmd5_final_zero in_ictx) (mask32 hmacmd5_final_zero in_octx)
+           MD5_spec 16 md5_nowipe_streaming MD5_spec_length ltac:(lia) K parts).
 Qed.
 
 Theorem repo_hmac_md5_buf K m : hmacmd5_buf K m = HMAC_MD5_spec K m.
 Proof.
   pose proof repo_hmac_md5_consts as L. destruct L as (L1 & L2 & L3 & L4 & L5).
   unfold hmacmd5_buf, HMAC_MD5_spec. rewrite ?L1, ?L2, ?L3, ?L4, ?L5.
-  exact (hmac_buf_correct ctx32 md5_init md5_update md5_final (fun c => c) MD5_spec 16
-           repo_md5_streaming MD5_spec_length ltac:(lia) K m).
+  exact (hmac_buf_correct ctx32 md5_init md5_update md5_final_nowipe (fun c => c) (fun c => c) MD5_spec 16
+           md5_nowipe_streaming MD5_spec_length ltac:(lia) K m).
 Qed.
 
 Theorem repo_hmac_md5_final_zeroes_ctx c : hctx32_is_zero (snd (hmacmd5_final c)) = true.
 Proof.
-  pose proof repo_hmac_md5_consts as L. destruct L as (L1 & L2 & L3 & L4 & L5).
-  unfold hmacmd5_final. rewrite ?L5.
-  rewrite (hmac_final_snd ctx32 md5_update md5_final (fun c => c) 16).
-  unfold hctx32_is_zero. cbn [hm_ictx hm_octx]. rewrite !repo_md5_final_zeroes_ctx. reflexivity.
+  unfold hmacmd5_final, hmac_final.
+  destruct (hmac_final_internal ctx32 md5_update md5_final_nowipe hmac_md5_ihash_len c) as [dg c'].
+  unfold hctx32_is_zero. cbn [snd hm_ictx hm_octx].
+  rewrite !mask32_zero by (vm_compute; reflexivity). reflexivity.
 Qed.
+
+Theorem repo_hmac_md5_final_wipes_whole :
+  wipes_whole_ctx hash_structs hash_final_fns "HMAC_MD5_Final"%string = true.
+Proof. vm_compute. reflexivity. Qed.
 
 (* ---------------- PBKDF2-HMAC-SHA256 ---------------- *)
 Lemma HMAC_SHA256_spec_length K m : length (HMAC_SHA256_spec K m) = 32%nat.
